@@ -350,8 +350,8 @@ def run(rep, tier, seed):
     # BitString.fromOctetString are translated from the source on every run (GenK.bitsDecode / bitsFromOctets); Props/C08
     # source_bit_string_contents_fail_cleanly is a theorem about that translation, which is run against the real code here
     from harness import kernels
-    kernels.obligations(rep, ['bitsFromOctets', 'bitsDecode', 'fromBytes'])
-    kernels.check(rep, drv, seed, 300 if tier == 'quick' else 20000, which=('bitsDecode',))
+    kernels.obligations(rep, ['bitsFromOctets', 'bitsDecode', 'fromBytes', 'nullDecode'])
+    kernels.check(rep, drv, seed, 300 if tier == 'quick' else 20000, which=('bitsDecode', 'nullDecode'))
     specs = []
     for s in SPECS:
         if s is None:
